@@ -299,5 +299,135 @@ theorem ellipse_scale (cxx cxy cyy m s : ℝ) (hs : 0 < s) :
   · rw [if_pos h0, if_pos (h3.mpr h0)]
   · rw [if_neg h0, if_neg (fun h => h0 (h3.mp h))]
 
+
+/-! ### round 3: the guarded regions, explicit eigen-decomposition, uniqueness of the bearing -/
+
+/-- `ellipse_eigen` with the eigenvalues written out: `c = √((cxx−cyy)² + 4cxy²)`,
+    `λ₁ = (tr + c)/2`, `λ₂ = (tr − c)/2` -/
+theorem ellipse_full (cxx cxy cyy m : ℝ) (hxx : 0 ≤ cxx) (hyy : 0 ≤ cyy)
+    (hdet : cxy ^ 2 ≤ cxx * cyy) :
+    0 ≤ √((cxx - cyy) * (cxx - cyy) + 4 * cxy * cxy) ∧
+    √((cxx - cyy) * (cxx - cyy) + 4 * cxy * cxy) ≤ cxx + cyy ∧
+    √((cxx - cyy) * (cxx - cyy) + 4 * cxy * cxy) * √((cxx - cyy) * (cxx - cyy) + 4 * cxy * cxy)
+      = (cxx - cyy) * (cxx - cyy) + 4 * cxy * cxy ∧
+    (stdErrorEllipse cyy cxy cxx m).1
+      = m * √((cxx + cyy + √((cxx - cyy) * (cxx - cyy) + 4 * cxy * cxy)) / 2) ∧
+    (stdErrorEllipse cyy cxy cxx m).2.1
+      = m * √((cxx + cyy - √((cxx - cyy) * (cxx - cyy) + 4 * cxy * cxy)) / 2) ∧
+    cxx * cos (stdErrorEllipse cyy cxy cxx m).2.2 + cxy * sin (stdErrorEllipse cyy cxy cxx m).2.2
+      = (cxx + cyy + √((cxx - cyy) * (cxx - cyy) + 4 * cxy * cxy)) / 2
+          * cos (stdErrorEllipse cyy cxy cxx m).2.2 ∧
+    cxy * cos (stdErrorEllipse cyy cxy cxx m).2.2 + cyy * sin (stdErrorEllipse cyy cxy cxx m).2.2
+      = (cxx + cyy + √((cxx - cyy) * (cxx - cyy) + 4 * cxy * cxy)) / 2
+          * sin (stdErrorEllipse cyy cxy cxx m).2.2 ∧
+    0 ≤ (stdErrorEllipse cyy cxy cxx m).2.2 ∧ (stdErrorEllipse cyy cxy cxx m).2.2 < π := by
+  set X := (cxx - cyy) * (cxx - cyy) + 4 * cxy * cxy with hX
+  have hX0 : 0 ≤ X := by nlinarith [sq_nonneg (cxx - cyy), sq_nonneg cxy]
+  set c := √X with hc
+  have hc0 : 0 ≤ c := Real.sqrt_nonneg _
+  have hcc : c * c = X := Real.mul_self_sqrt hX0
+  have hctr : c ≤ cxx + cyy := by
+    have : X ≤ (cxx + cyy) ^ 2 := by nlinarith
+    calc c = √X := rfl
+      _ ≤ √((cxx + cyy) ^ 2) := Real.sqrt_le_sqrt this
+      _ = cxx + cyy := Real.sqrt_sq (by linarith)
+  rw [ellipse_val cxx cxy cyy m hxx hyy hdet]
+  have hXe : (cxx - cyy) ^ 2 + (2 * cxy) ^ 2 = X := by rw [hX]; ring
+  refine ⟨hc0, hctr, hcc, rfl, rfl, ?_⟩
+  dsimp only
+  by_cases h0 : c = 0
+  · rw [if_pos h0]
+    simp only [Real.cos_zero, Real.sin_zero, mul_one, mul_zero, add_zero]
+    have hd : cxx - cyy = 0 := by nlinarith [sq_nonneg (cxx - cyy), sq_nonneg cxy]
+    have he : cxy = 0 := by nlinarith [sq_nonneg (cxx - cyy), sq_nonneg cxy]
+    refine ⟨?_, ?_, le_refl _, Real.pi_pos⟩
+    · rw [h0]; linarith
+    · rw [he]
+  · rw [if_neg h0]
+    have hcX : √((cxx - cyy) ^ 2 + (2 * cxy) ^ 2) = c := by rw [hXe]
+    have hne : √((cxx - cyy) ^ 2 + (2 * cxy) ^ 2) ≠ 0 := by rw [hcX]; exact h0
+    obtain ⟨p1, p2⟩ := arg_polar (cxx - cyy) (2 * cxy) hne
+    rw [hcX] at p1 p2
+    obtain ⟨q1, q2⟩ := halfBearing_double (cxx - cyy) (2 * cxy)
+    obtain ⟨r1, r2⟩ :=
+      eigvec_of_half cxx cxy cyy c (halfBearing (cxx - cyy) (2 * cxy)) _ p1 p2 q1 q2
+    exact ⟨r1, r2, (halfBearing_range _ _).1, (halfBearing_range _ _).2⟩
+
+/-- two unit vectors `(cos α, sin α)`, `(cos β, sin β)` with `α, β ∈ [0, π)` that are both
+    eigenvectors of the symmetric `[[cxx,cxy],[cxy,cyy]]` for a SIMPLE eigenvalue `l1`
+    (`l1 + l2 = trace`, `l1 ≠ l2`) have the same bearing -/
+theorem eigvec_unique (cxx cxy cyy l1 l2 α β : ℝ) (hs : l1 + l2 = cxx + cyy) (hne : l1 ≠ l2)
+    (hα0 : 0 ≤ α) (hαπ : α < π) (hβ0 : 0 ≤ β) (hβπ : β < π)
+    (a1 : cxx * cos α + cxy * sin α = l1 * cos α) (a2 : cxy * cos α + cyy * sin α = l1 * sin α)
+    (b1 : cxx * cos β + cxy * sin β = l1 * cos β) (b2 : cxy * cos β + cyy * sin β = l1 * sin β) :
+    β = α := by
+  have hcross : (l2 - l1) * (sin β * cos α - cos β * sin α) = 0 := by
+    linear_combination (sin β * cos α - cos β * sin α) * hs + sin β * a1 - sin α * b1
+      + cos α * b2 - cos β * a2
+  have hsin : sin (β - α) = 0 := by
+    rw [Real.sin_sub]
+    rcases mul_eq_zero.mp hcross with h | h
+    · exact absurd (by linarith : l1 = l2) hne
+    · exact h
+  have := (Real.sin_eq_zero_iff_of_lt_of_lt (by linarith) (by linarith)).mp hsin
+  linarith
+
+/-! the clamp of the residual cofactor and the `> 0` guard of the studentized residual carry no
+    absolute scale -/
+
+theorem wcoefRes_scale (qbb w t : ℝ) (ht : 0 < t) :
+    wcoefRes qbb (t * w) = wcoefRes qbb w / t := by
+  simp only [wcoefRes]
+  have e : (1 - qbb) / (t * w) = (1 - qbb) / w / t := by rw [div_div, mul_comm]
+  rw [e]
+  by_cases h : 0 ≤ (1 - qbb) / w
+  · rw [if_pos h, if_pos (div_nonneg h ht.le)]
+  · rw [if_neg h, if_neg (fun h' => h (by
+      have := mul_nonneg h' ht.le
+      rwa [div_mul_cancel₀ _ ht.ne'] at this))]
+    simp
+
+theorem wcoefRes_nonneg (qbb w : ℝ) : 0 ≤ wcoefRes qbb w := by
+  simp only [wcoefRes]
+  split_ifs with h
+  · exact h
+  · exact le_refl _
+
+theorem stdevRes_scale (m q t : ℝ) (ht : 0 < t) : stdevRes (√t * m) (q / t) = stdevRes m q := by
+  simp only [stdevRes, sqrt_real, abs_real]
+  rw [abs_div, abs_of_pos ht, Real.sqrt_div' _ ht.le]
+  have : √t ≠ 0 := (Real.sqrt_pos.mpr ht).ne'
+  field_simp
+
+theorem stdevRes_nonneg (m q : ℝ) (hm : 0 ≤ m) : 0 ≤ stdevRes m q := by
+  simp only [stdevRes, sqrt_real, abs_real]
+  exact mul_nonneg hm (Real.sqrt_nonneg _)
+
+theorem studentized_scale (sres r k : ℝ) (hk : 0 < k) :
+    studentizedResidual (k * sres) (k * r) = studentizedResidual sres r := by
+  simp only [studentizedResidual]
+  by_cases h : 0 < sres
+  · rw [if_pos h, if_pos (mul_pos hk h)]; field_simp
+  · rw [if_neg h, if_neg (fun h' => h (by
+      rcases lt_or_ge 0 sres with h1 | h1
+      · exact h1
+      · exact absurd h' (not_lt.mpr (mul_nonpos_of_nonneg_of_nonpos hk.le h1))))]
+
+theorem errObsAdj_scale (v q w t : ℝ) (ht : 0 < t) : errObsAdj v (q / t) (t * w) = errObsAdj v q w := by
+  simp only [errObsAdj]
+  have : q / t * (t * w) = q * w := by field_simp
+  rw [this]
+
+theorem m0_scale (act : SigmaAct) (sapr phi s : ℝ) (dof : ℤ) (hs : 0 < s) :
+    m0 act (s * sapr) (s ^ 2 * phi) dof = s * m0 act sapr phi dof := by
+  cases act
+  · rfl
+  · simp only [m0]
+    split_ifs with h
+    · simp only [sqrt_real, ofInt_real]
+      have : s ^ 2 * phi / (dof : ℝ) = s ^ 2 * (phi / (dof : ℝ)) := by ring
+      rw [this, mul_comm (s ^ 2), Real.sqrt_mul' _ (sq_nonneg s), Real.sqrt_sq hs.le]; ring
+    · simp
+
 end Stats
 end Gama
